@@ -53,8 +53,10 @@ func (c *RawHTTPResponder) AddHeader(name string, value string) {
 
 func (c *RawHTTPResponder) SetHeaders(headers http.Header) {
 	for key, values := range headers {
+		// Replace the field, then add every value: calling SetHeader per value kept only the last one
+		c.response.Header.Del(key)
 		for _, value := range values {
-			c.SetHeader(key, value)
+			c.AddHeader(key, value)
 		}
 	}
 }
